@@ -11,11 +11,11 @@ EXTRA = {
     # DNS / DHCP acceptance is also "only traffic addressed to the socket"
     'R19.1': ['C11'], 'R19.2': ['C09'], 'R18.1': ['C11'],
     # emission limits / nested views
-    'R06.10': ['C03', 'C10', 'C07'], 'R06.9': ['C08'], 'R06.3b': ['C08'], 'R07.10': ['C11'],
+    'R06.10': ['C03', 'C10', 'C07'], 'R06.9': ['C08'], 'R06.3b': ['C08', 'C20'], 'R07.10': ['C11'],
     # TCP: window fields are shared between the receiver (C04) and sender (C05) properties, and with stream integrity (C01)
     'R05.3': ['C04'], 'R05.1': ['C01'], 'R04.1': ['C05'], 'R04.5': ['C05'], 'R04.6': ['C05'], 'R05.9': ['C01'], 'R05.7': ['C04'],
     'R17.3': ['C01', 'C02'], 'R17.4': ['C04'], 'R17.1': ['C01', 'C02'], 'R17.5b': ['C13'], 'R17.6': ['C02', 'C13'],
-    'R20.6': ['C08'], 'R08.7': ['C06'], 'R08.7b': ['C06'], 'R01.4': ['C02', 'C17'], 'R02.1': ['C01'], 'R05.10': ['C04'], 'R20.11': ['C11'], 'R11.2': ['C03'], 'R11.3': ['C03'], 'R07.13': ['C19'], 'R02.8': ['C01'], 'R02.2': ['C17'], 'R02.3': ['C17'],
+    'R20.6': ['C08'], 'R08.7': ['C06'], 'R08.7b': ['C06'], 'R01.4': ['C02', 'C17'], 'R02.1': ['C01'], 'R05.10': ['C04'], 'R07.1': ['C19'], 'R20.11': ['C11'], 'R11.2': ['C03'], 'R11.3': ['C03'], 'R07.13': ['C19'], 'R02.8': ['C01'], 'R02.2': ['C17'], 'R02.3': ['C17'],
     # buffers under the sockets
     'R14.1': ['C09', 'C04', 'C05'], 'R14.1b': ['C04', 'C05', 'C02'], 'R14.2': ['C01', 'C09'], 'R14.4': ['C01'], 'R14.5': ['C01'], 'R14.6': ['C01'], 'R14.7': ['C01'],
     'R15.1': ['C02'], 'R15.3': ['C04', 'C02'], 'R15.4': ['C01', 'C04'], 'R15.5': ['C04'],
